@@ -462,6 +462,49 @@ def task_routes(t):
                 rec('routes-broken:' + e.what, e.what, case, **e.detail)
             except Exception as e:  # noqa
                 rec('routes-exception:%s:%s' % (route, type(e).__name__), 'raised %r' % (e,), case)
+    # dump, REORDER the dumping manager, dump again: the second file must describe the manager
+    # as it is now (anything remembered from the first dump is stale)
+    if focus is None or (isinstance(focus, (list, tuple)) and focus[1] == 'redump'):
+        import dd.bdd as _bddm
+        for k, f in enumerate(fs[3::8]):
+            if focus is not None and f != focus[0]:
+                continue
+            for ext_ in ('json', 'p'):
+                case = dict(task=t[:-1] + ([f, 'redump'],), roots=[U.fmt(f)],
+                            route='dump, reorder the source, dump again (%s)' % ext_)
+                try:
+                    fname = 'c12r-%d.%s' % (pid, ext_)
+                    src.dump(fname, [fn[f]])
+                    n_ = len(raw.vars)
+                    if k % 2:
+                        _bddm.reorder(raw, {v: n_ - 1 - l for v, l in raw.vars.items()})
+                    else:
+                        raw.swap(0, 1)
+                    src.dump(fname, {'again': fn[f]})
+                    made.add(fname)
+                    want_order = sweep.order_str(dict(raw.vars))
+                    for flag in (True, False):
+                        tgt = S.new_autoref()
+                        if ext_ == 'json':
+                            back = _copy.load_json(fname, tgt, load_order=flag)
+                        else:
+                            back = tgt.load(fname, levels=flag)
+                        rep.add('evaluations')
+                        rep.add('nontrivial')
+                        if O.Den(tgt, U)(back['again']) != f:
+                            rec('redump-wrong:' + ext_, 'a file dumped after the dumping manager '
+                                'was reordered loads to another function', dict(case, flag=flag))
+                        if flag and sweep.order_str(dict(tgt.vars)) != want_order:
+                            rec('redump-order:' + ext_, 'a file dumped after reordering does not '
+                                'carry the new order', dict(case, flag=flag))
+                        env.settle()
+                        O.check(tgt, _ledger([back['again']]), U, O.Den(tgt, U))
+                        del back
+                except Violation as e:
+                    rec('redump-broken:' + e.what, e.what, case, **e.detail)
+                except Exception as e:  # noqa
+                    rec('redump-exception:%s:%s' % (ext_, type(e).__name__), 'raised %r' % (e,),
+                        case)
     for fname in made:
         try:
             os.remove(fname)
